@@ -138,6 +138,31 @@ def apply(v: Variant) -> dict:
     return src
 
 
+@lru_cache(maxsize=1)
+def private_attribute_names() -> list:
+    """Private instance attributes (self._x / self.__x) of the base corpus that are not also
+    function names: renaming one consistently keeps behaviour."""
+    import re
+
+    names: set[str] = set()
+    funcs: set[str] = set()
+    text_all = ""
+    for path, text in _base().items():
+        if path.endswith(".py"):
+            text_all += text
+            names |= set(re.findall(r"\bself\.(_[A-Za-z0-9_]*[A-Za-z0-9])\b\s*(?::[^=\n]+)?=[^=]", text))
+            funcs |= set(re.findall(r"def (_[A-Za-z0-9_]*)\(", text))
+    out = []
+    for n in sorted(names - funcs):
+        if n.endswith("__"):
+            continue
+        # skip names that also occur as keyword arguments / strings (public protocol, yaml keys)
+        if re.search(r"[\"']" + re.escape(n) + r"[\"']", text_all) or re.search(r"\b" + re.escape(n) + r"\s*=[^=]", re.sub(r"self\." + re.escape(n), "", text_all)):
+            continue
+        out.append(n)
+    return out
+
+
 _REG: dict[str, list[Variant]] = {}
 
 _INTERFACE_NAMES = {"_yaml_repr", "_match_instances", "_approximate_instances", "_register_permanently"}
@@ -176,6 +201,8 @@ def for_property(prop: str) -> list[Variant]:
         for name in private_function_names():
             new = name + "_impl" if not name.startswith("__") else name + "_impl"
             vs.append(Variant(f"{prop}-r-{name.strip('_')}", "", "twin", [], rename=(name, new), note="private helper renamed"))
+        for name in private_attribute_names():
+            vs.append(Variant(f"{prop}-a-{'p' * (len(name) - len(name.lstrip('_')))}_{name.strip('_')}", "", "twin", [], rename=(name, name + "_priv"), note="private attribute renamed"))
         for v in vs:
             v.prop = prop
         ids = [v.vid for v in vs]
